@@ -199,7 +199,7 @@ def run(ctx):
     eng = mk_engine(contracts=ce.CONTRACTS, loops=ce.LOOPS, class_attrs=ce.CLASS_ATTRS, field_classes=ce.FIELD_CLASSES,
                     schema_extra=ce.SCHEMA_EXTRA)
     ctx.verify(eng, [ce.CONTRACTS[0]])
-    eng2 = mk_engine(contracts=cm.CONTRACTS, inline=cm.INLINE, field_classes=cm.FIELD_CLASSES)
+    eng2 = cm.engine()
     ctx.verify(eng2, [cm.CONTRACTS[0]])
     ctx.verify(ck.engine(), [ck.VERIFY[1]])
     rnd = random.Random(ctx.seed)
